@@ -33,6 +33,7 @@ fn checks() -> Vec<Check> {
         pure::c09::check(),
         pure::c18::check(),
         sim::c01::check(),
+        sim::c03::check(),
     ]
 }
 
@@ -83,6 +84,13 @@ fn main() {
             other => extra.push(other.to_string()),
         }
         i += 1;
+    }
+
+    if let Ok(filter) = std::env::var("VH_LOG") {
+        let _ = tracing_subscriber::fmt()
+            .with_env_filter(tracing_subscriber::EnvFilter::new(filter))
+            .with_writer(std::io::stderr)
+            .try_init();
     }
 
     // child modes that are not property checks
